@@ -380,7 +380,7 @@ class CallMixin:
             elif isinstance(p, GhostSeqP):
                 p.items.append(x)
             elif isinstance(p, RecListP):
-                self.reclist_insert(recv, p, p.len, x)
+                self.reclist_append(p, x)
             else:
                 raise Unsupported(f"append to {type(p).__name__}")
             return NONE
@@ -407,7 +407,28 @@ class CallMixin:
                 return VInt(t) if p.elem == "int" else VAtom(t)
         raise Unsupported(f"list.{name}")
 
+    def reclist_append(self, p, rec):
+        if isinstance(rec, VElem) and rec.cls == p.cls:
+            src_p = self.get_payload(rec.lst)
+            vals = [z3.Select(src_p.fields[f], rec.idx) for f in SCHEMA[p.cls]]
+        elif isinstance(rec, VTuple) and getattr(rec, "cls", None) == p.cls:
+            vals = [v.t for v in rec.items]
+        else:
+            raise Unsupported("append of a non-record")
+        for f, t in zip(SCHEMA[p.cls], vals):
+            p.fields[f] = z3.Store(p.fields[f], p.len, t)
+        p.len = p.len + 1
+
     def reclist_insert(self, recv, p, at, rec):
+        if isinstance(rec, VElem) and rec.cls == p.cls:
+            # a record taken from another list (value semantics: the fields are copied)
+            src_p = self.get_payload(rec.lst)
+            items = []
+            for fname, fty in SCHEMA[p.cls].items():
+                t = z3.Select(src_p.fields[fname], rec.idx)
+                items.append(VBool(t) if fty == "bool" else (VInt(t) if fty == "int" else VAtom(t)))
+            rec = VTuple(items)
+            rec.cls = p.cls
         if not (isinstance(rec, VTuple) and getattr(rec, "cls", None) == p.cls):
             raise Unsupported("insert of a non-record")
         k = z3.Int("k!ins")
@@ -525,6 +546,10 @@ class CallMixin:
                 sub.locals[p.arg] = self.eval(defaults[i - nd], sub)
             else:
                 raise Unsupported(f"missing argument {p.arg} calling {qual}")
+        for pname, pty in (c.params or {}).items():
+            v = sub.locals.get(pname)
+            if isinstance(pty, str) and pty.startswith("reclist:") and isinstance(v, (VAtom, BoolishV)):
+                sub.locals[pname + "__atom"] = v
         sub.entry = dict(sub.locals)
         if len(self.frames) > 12:
             raise Unsupported("inline depth")
@@ -582,7 +607,8 @@ class CallMixin:
                     if not self.feasible():
                         raise PathEnd()
                     raise RaiseSig(exc, f"{site}:{short}", False)
-            for label, expr in c.ensures:
+            call_ens = (c.ghost or {}).get("call_ensures")
+            for label, expr in (call_ens if call_ens is not None else c.ensures):
                 self.assume(self.spec_bool(expr, sub, label, result=result))
             if not self.feasible():
                 self.oblige("COVER", f"{site}:{short}/ensures", False, node, "callee postcondition contradictory here")
